@@ -932,7 +932,8 @@ benign('benign-c14-scratch-cache-committed', 'C14', DEC, """    let (remaining, 
     }""")
 benign('benign-c19-deadline-per-iteration', 'C19', 'crates/edp_client/src/connection.rs', """                let mut len_bytes = [0u8; 4];
                 tokio::time::timeout(timeout, read_half.read_exact(&mut len_bytes))""", """                let mut len_bytes = [0u8; 4];
-                let deadline = tokio::time::Instant::now() + timeout;
+                let now = tokio::time::Instant::now();
+                let deadline = now.checked_add(timeout).unwrap_or(now + Duration::from_secs(86400 * 365 * 30));
                 tokio::time::timeout_at(deadline, read_half.read_exact(&mut len_bytes))""")
 benign('benign-c03-inner-remainder-if', 'C03', DEC, """    let owned_term = match parse_term(&decompressed, cache) {
         Ok((remaining, term)) if remaining.is_empty() => term,
